@@ -279,6 +279,7 @@ class Listener:
         self.family = family
         self.sockets = [FakeSock(family, (host, port) if family == socket.AF_INET else (host, port, 0, 0))]
         self.closed = False
+        self.serving = True
         self.accepted = 0
 
     def close(self):
@@ -292,6 +293,18 @@ class Listener:
         return not self.closed
 
     async def wait_closed(self):
+        await asyncio.sleep(0)
+
+    async def start_serving(self):
+        """asyncio.Server.start_serving: the second suspension point of a listener start-up when the
+        server was created with start_serving=False (the caller holds the handle already)"""
+        if self.serving:
+            return
+        self.serving = True
+        if self.net.bind_gate is not None:
+            g = self.net.bind_gate(self.port, 2)
+            if g is not None:
+                await g
         await asyncio.sleep(0)
 
     async def serve_forever(self):
@@ -343,6 +356,11 @@ class Network:
         lst = Listener(self, cb, host or "127.0.0.1", port, family)
         self.listeners[port] = lst
         self.bind_log.append(("bound", port))
+        if not kw.get("start_serving", True):
+            # asyncio.start_server(..., start_serving=False): no suspension after the bind; the caller
+            # awaits Listener.start_serving() itself (and owns the handle if that is cancelled)
+            lst.serving = False
+            return lst
         # second suspension point (start_serving)
         try:
             if self.bind_gate is not None:
